@@ -417,10 +417,22 @@ func (fx *FuncCtx) assumeInvariants(st *State, f *Frame, ord int, lv *loopVisit)
 // name from DebugRef instructions (the package is built with ssa.GlobalDebug); phis at
 // the head carry the source variable's name in their comment.
 func (fx *FuncCtx) bindLoopLocals(env *SpecEnv, st *State, f *Frame) {
+	isPhi := map[string]bool{}
 	for _, in := range f.blk.Instrs {
 		if phi, ok := in.(*ssa.Phi); ok && phi.Comment != "" {
 			if v, ok := f.vals[phi]; ok {
 				f.locals[phi.Comment] = v
+				isPhi[phi.Comment] = true
+			}
+		}
+	}
+	// values recorded inside the loop body are from an earlier iteration: not visible at the head
+	if body := fx.cuts(f.fn).body[f.blk]; body != nil {
+		for name, b := range f.localBlk {
+			if body[b] && !isPhi[name] {
+				if _, isAddr := f.locals[name].(localAddr); !isAddr {
+					delete(f.locals, name)
+				}
 			}
 		}
 	}
